@@ -250,6 +250,7 @@ def run(ctx):
             "call_while_height_busy", "ret_partial", "ret_len0", "ret_all_served", "ret_kind_cancelled", "ret_kind_deadline",
             "ret_kind_error", "cancelled_call_returned_cancelled", "available_verdicts", "persisted_results_checked",
             "distribution_draws", "steps_applied_cex_orig", "steps_applied_cex_crash", "steps_applied_tlc",
+            "steps_applied_directed", "waiter_cancelled", "call_after_cancelled_waiter", "blocked_callers_confirmed_parked",
             "crash_lost_unflushed_result", "verdict_outside"]
     missing = [k for k in need if c.get(k, 0) <= 0]
     if missing and rep.get("summary") is not None and rep.get("counters"):
